@@ -335,7 +335,9 @@ def accesses(e):
 
 def last_field(path):
     """last named component of an access path: this.a_.b_ -> b_ ;  x.load() -> load()"""
-    return path.split('.')[-1] if path else ''
+    c = path.split('.')[-1] if path else ''
+    if c.startswith('#') and '::' in c: c = c.rsplit('::', 1)[1]     # dependent qualified member: #base::member
+    return c
 
 
 def fields_of(path):
